@@ -81,8 +81,29 @@ bool build_check(const std::string& prop, const std::string& tier, CheckSpec& s,
         s.batches.push_back(mk("sample", q ? 24 : 1500, ALL, "crossrep", {}, "layer 2: samplers, hashing, GT exponentiation (rejection decisions must agree)"));
         s.batches.push_back(mk("enc", q ? 16 : 600, ALL, "crossrep", {}, "layer 2: encodings"));
         s.batches.push_back(mk("pairs", q ? 16 : 600, ALL, "crossrep", {}, "layer 2: pairing products"));
+        s.batches.push_back(mk("group", q ? 24 : 1500, ALL, "crossrep", {}, "layer 2: group and target-group API"));
         s.batches.push_back(mk("wkd", q ? 24 : 2000, {"A/bmi2-adx"}, "flipdispatch", {{"maxops", 14}}, "layer 3: the run-time dispatch pointers of replica A are swapped between the BMI2/ADX and baseline routines at seeded yield points inside operations; transcript must equal the undisturbed run"));
         s.batches.push_back(mk("pairs", q ? 16 : 1000, {"A/bmi2-adx"}, "flipdispatch", {}, "layer 3: dispatch flips inside Miller loops"));
+        return true;
+    }
+    if (prop == "C19") {
+        s.level = "other";
+        s.rule = "two parts. (1) static ABI facts evaluated at run time in every replica (64- and 32-bit words, asm and portable): sizeof/alignof/offsetof of every struct in the C headers against the C++ type it is cast to, the prepared-point coefficient count, every exported constant against the C++ value (and a few against values written down in the simulator). (2) view refinement by simulation: every history of the other scenarios is executed once through the C API and once through the C++ API on the same replica with the same random stream; the event logs (all outputs, return values, stream consumption) must be identical. case = ABI row / constant per replica, plus the cases of the histories; non-trivial as in those scenarios";
+        register_static_phases(prop, s);
+        s.batches.push_back(mk("wkd", q ? 100 : 8000, FAST, "crossview", {}, "WKD-IBE histories, C view vs C++ view"));
+        s.batches.push_back(mk("lq", q ? 60 : 4000, FAST, "crossview", {}, "LQ-IBE histories"));
+        s.batches.push_back(mk("sample", q ? 60 : 4000, FAST, "crossview", {}, "samplers, hashing, GT operations"));
+        s.batches.push_back(mk("enc", q ? 40 : 2000, FAST, "crossview", {}, "encodings"));
+        s.batches.push_back(mk("pairs", q ? 40 : 2000, FAST, "crossview", {}, "pairing products"));
+        s.batches.push_back(mk("wkd", q ? 10 : 400, {"C/portable32"}, "crossview", {{"maxops", 10}}, "32-bit words"));
+        s.batches.push_back(mk("group", q ? 60 : 4000, ALL, "crossview", {}, "group and target-group API functions not used by the schemes (add, add_mixed, negate, double, multiply, equal, conversions, gt_add/negate/double/equal) incl. raw Fq12 inputs outside GT"));
+        return true;
+    }
+    if (prop == "C20") {
+        s.rule = "case = one concurrent execution: (multiset of op kinds per task, switch-probability knob, number of context switches capped at 50); distinct by that tuple; non-trivial iff at least one preemption happened inside a library call. Plus the static link-surface audit rows (one per undefined / writable symbol per build configuration)";
+        register_static_phases(prop, s);
+        s.batches.push_back(mk("conc", q ? 96 : 12000, FAST, "single", {}, "2-6 real threads under the serialising seeded scheduler; write trap on the replica image and the shared-input arena; libc traps"));
+        s.batches.push_back(mk("conc", q ? 6 : 300, {"C/portable32"}, "single", {}, "32-bit words"));
         return true;
     }
     err = "no check registered for property " + prop;
